@@ -147,6 +147,11 @@ def run(ctx):
                "closing a section moves no handler entries: they are "
                "appended by constuct only, after the entries of the sections "
                "closed before")
+    # the per-load schema built for %import keeps the schema-level handler
+    # (so a later load with the same loader still has that entry)
+    crosscheck(ctx, "C16.R5", "ZConfig.info.createDerivedSchema",
+               "ref_info.py", "createDerivedSchema", None,
+               "the derived schema is built with the base schema's handler")
     # no default-argument list
     bi = m.fn(MT + ".BaseMatcher.__init__")
     for d in bi.node.args.defaults:
